@@ -15,6 +15,8 @@ namespace Nstd.Path
 /-- C strings: no NUL byte -/
 def okStr (b : Bytes) : Bool := b.all (fun c => c != 0)
 
+def b01' (b : Bool) : String := if b then "1" else "0"
+
 def pathOp (ws : List String) : Option String :=
   match ws with
   | ["dir", p] => do let p ← fromHex p; if okStr p then pure (toHex (getDirectoryName p)) else none
@@ -30,6 +32,9 @@ def pathOp (ws : List String) : Option String :=
   | ["rel", f, t] => do
       let f ← fromHex f; let t ← fromHex t
       if okStr f && okStr t then pure (toHex (getRelativePath f t)) else none
+  | ["wild", p, s] => do
+      let p ← fromHex p; let s ← fromHex s
+      if okStr p && okStr s then pure (b01' (szWildMatch7 lowerAscii p s)) else none
   | _ => none
 
 /-! ### file-system ops
